@@ -515,8 +515,8 @@ def mutants(mb):
     E = "apischema/validation/errors.py"
     D = "apischema/deserialization/__init__.py"
     mb.add_text("dependent-required-unguarded", D, "                if f not in alias_by_name:  # field skipped for deserialization\n                    continue\n", "", "C03.R5", "DeserializationMethodVisitor.object")
-    mb.add_text("schema-dependent-keys-unfiltered", "apischema/json_schema/schema.py", "            if f in aliases and any(req in aliases for req in reqs)\n", "", "C03.R5", "SchemaBuilder.object")
-    mb.add_text("schema-dependent-values-unfiltered", "apischema/json_schema/schema.py", "            f: [req for req in reqs if req in aliases]\n", "            f: list(reqs)\n", "C03.R5", "SchemaBuilder.object")
+    mb.add_text("schema-dependent-keys-unfiltered", "apischema/json_schema/schema.py", "            if f in aliases\n            and any(req in aliases and req not in omittable for req in reqs)\n", "", "C03.R5", "SchemaBuilder.object")
+    mb.add_text("schema-dependent-values-unfiltered", "apischema/json_schema/schema.py", "            f: [req for req in reqs if req in aliases and req not in omittable]\n", "            f: [req for req in reqs if req not in omittable]\n", "C03.R5", "SchemaBuilder.object")
     mb.add_text("coerce-str-huge-int", C, "            try:\n                return str(data)  # type: ignore\n            except ValueError:  # int too large for decimal conversion\n                raise bad_type(data, cls)", "            return str(data)  # type: ignore", "C03.R1", "coerce")
     mb.add_text("coerce-none-unhashable-str", C, "        try:\n            if data is None or (isinstance(data, str) and data in STR_NONE_VALUES):\n                return None  # type: ignore\n        except TypeError:  # str subclass which is not hashable\n            pass\n        raise bad_type(data, cls)", "        if data is None or (isinstance(data, str) and data in STR_NONE_VALUES):\n            return None  # type: ignore\n        raise bad_type(data, cls)", "C03.R1", "coerce")
     mb.add_text("neg-dependent-guard-if-form", D, "                if f not in alias_by_name:  # field skipped for deserialization\n                    continue\n                for req in reqs:\n                    requiring[req].add(alias_by_name[f])", "                if f in alias_by_name:\n                    for req in reqs:\n                        requiring[req].add(alias_by_name[f])", negative=True)
